@@ -316,6 +316,18 @@ class Ctx:
         return random.Random("%s-%s-%s" % (self.pid, self.seed, tag))
 
 
+def guarded(ctx, what, fn, *args, **kw):
+    """runs one part of a property's check; a crash of that part (e.g. a unit that drives an internal class whose interface changed) is
+    recorded as an error of that part and does not keep the remaining units and the monitor from running"""
+    try:
+        return fn(*args, **kw)
+    except Exception:
+        import traceback
+        u = ctx.unit("harness:" + what, "infrastructure", "this part of the check could not run against the current source")
+        u.error = traceback.format_exc()[-2500:]
+        return None
+
+
 def jsonable(x):
     try:
         import numpy as np
